@@ -257,4 +257,46 @@ theorem split_complete (G : String → Prop) (S : Syn) (P0 : HT.Prog GAtom) (hc 
   intro a
   rw [hext a, ext_eq]
 
+/-! ### folding against an auxiliary rule that is already in the program (`duplication`: second and later occurrences) -/
+
+/-- the source of a fold: context, the rule with the literal set still in place, and the auxiliary rule -/
+def unfoldedProg (G : String → Prop) (S : Syn) (P0 : HT.Prog GAtom) : HT.Prog GAtom :=
+  HT.Union (HT.Union P0 (instances P G S.head S.body)) (instances P G (.lit (auxLit S.auxName S.vs)) S.new)
+
+theorem models_unfoldedProg (G : String → Prop) (S : Syn) (P0 : HT.Prog GAtom) (hc : Cond P G S)
+    (hw : (splitData P G S P0).WF) (H T : Interp) :
+    HT.Models (unfoldedProg P G S P0) H T ↔
+      HT.Models (HT.Union (splitData P G S P0).orig ((splitData P G S P0).defs hw).rules) H T := by
+  constructor
+  · intro h r hr
+    rcases hr with hr | hr
+    · exact (models_orig P G S P0 hc H T).mp (fun r' hr' => h r' (Or.inl hr')) r hr
+    · obtain ⟨a, ⟨k, rfl⟩, rfl⟩ := hr
+      simp only [HT.SplitData.defs, HT.SplitData.dfn, splitData]
+      constructor
+      · rintro ⟨e, hk, hn⟩
+        have := (h _ (Or.inr ⟨e, rfl⟩)).1 hn
+        have hk' : k = S.vs.map e := by cases hk; rfl
+        rw [hk']; exact (auxHead_sat P G S hc e H T).mp this
+      · rintro ⟨e, hk, hn⟩
+        have := (h _ (Or.inr ⟨e, rfl⟩)).2 hn
+        have hk' : k = S.vs.map e := by cases hk; rfl
+        rw [hk']; exact (auxHead_sat P G S hc e T T).mp this
+  · intro h r hr
+    rcases hr with hr | ⟨e, rfl⟩
+    · exact (models_orig P G S P0 hc H T).mpr (fun r' hr' => h r' (Or.inl hr')) r hr
+    · have := h _ (Or.inr ⟨⟨S.auxName, S.vs.map e⟩, ⟨_, rfl⟩, rfl⟩)
+      simp only [HT.SplitData.defs, HT.SplitData.dfn, splitData] at this
+      exact ⟨fun hn => (auxHead_sat P G S hc e H T).mpr (this.1 ⟨e, rfl, hn⟩),
+             fun hn => (auxHead_sat P G S hc e T T).mpr (this.2 ⟨e, rfl, hn⟩)⟩
+
+/-- **fold against an existing definition, from syntax**: with the auxiliary rule in the program, the rule with the
+literal set and the rule with the auxiliary atom in its place have the same stable models -/
+theorem fold_existing (G : String → Prop) (S : Syn) (P0 : HT.Prog GAtom) (hc : Cond P G S)
+    (hP0 : ∀ r, P0 r → HT.Indep (splitData P G S P0).A r) (T : Interp) :
+    HT.Stable (unfoldedProg P G S P0) T ↔ HT.Stable (splitProg P G S P0) T := by
+  have hw := wf P G S P0 hc hP0
+  rw [stable_of_models (models_unfoldedProg P G S P0 hc hw) T, stable_of_models (models_split P G S P0 hc hw) T]
+  exact (splitData P G S P0).fold_existing hw (glue P G S P0 hc) T
+
 end NgoVerif.Proofs.C16sem
